@@ -46,6 +46,12 @@ def rfc2617_response(ha1, nonce, method, uri, qop, nc, cnonce, algorithm, body):
 def secret(cfg, user):
     """H(A1) the server's store holds for `user` (None: no such user / unusable)."""
     d = {u: p for u, p in cfg['users']}
+    if cfg['store'] == 'htdigest':
+        # Apache htdigest file: the line of this user *in this realm*
+        for u, r, h in cfg['htlines']:
+            if u == user and r == cfg['realm']:
+                return h
+        return None
     if user not in d:
         return None
     if cfg['store'] == 'plain':
@@ -254,7 +260,20 @@ def gen_cfg(rng, tool):
     cfg = {'tool': tool, 'realm': rng.choice(REALMS), 'charset': rng.choice(CHARSETS), 'users': uniq}
     if tool == 'digest':
         cfg['key'] = rng.choice(KEYS)
-        cfg['store'] = rng.choice(['plain', 'plain', 'ha1'])
+        cfg['store'] = rng.choice(['plain', 'plain', 'ha1', 'htdigest'])
+        if cfg['store'] == 'htdigest':
+            # file format: no colon / line break inside user or realm; empty passwords have an HA1 like any other
+            cfg['realm'] = rng.choice([r for r in REALMS if ':' not in r])
+            cfg['users'] = [[u, p] for u, p in cfg['users'] if ':' not in u] or [['alice', 'secret']]
+            lines = []
+            for u, p in cfg['users']:
+                own = [u, cfg['realm'], ha1_of(u, cfg['realm'], p)]
+                other_realm = rng.choice(['elsewhere', cfg['realm'] + '2', cfg['realm'][:-1] or 'q'])
+                foreign = [u, other_realm, ha1_of(u, other_realm, p + 'other')]
+                lines += rng.choice([[own], [foreign, own], [own, foreign], [foreign, own]])
+            # somebody who only exists in another realm
+            lines.insert(rng.randrange(len(lines) + 1), ['stranger', 'elsewhere', ha1_of('stranger', 'elsewhere', 'pw')])
+            cfg['htlines'] = lines
     return cfg
 
 
@@ -311,6 +330,8 @@ def candidates(fields, enc, server_codec):
 
 def forge_nonce(rng, nonce, how, cfg, world, at):
     ts, _, h = nonce.partition(':')
+    if not re.fullmatch(r'-?[0-9]+', ts):
+        ts = str(at)        # the server did not hand out a nonce of the usual shape (reported via the no-header cases)
     if how == 'ts+1':
         return '%d:%s' % (int(ts) + 1, h)
     if how == 'ts-1':
@@ -366,7 +387,7 @@ def weighted(rng, table):
 def gen_digest_case(rng, cfg, world):
     kind = weighted(rng, DIGEST_KINDS)
     server_codec = CODEC[cfg['charset'].lower()]
-    valid_users = [(u, p) for u, p in cfg['users'] if p != '' or cfg['store'] == 'ha1']
+    valid_users = [(u, p) for u, p in cfg['users'] if p != '' or cfg['store'] in ('ha1', 'htdigest')]
     user, pw = rng.choice(valid_users) if valid_users else ('ghost', 'pw')
     method = rng.choice(METHODS)
     body = ''
@@ -393,8 +414,11 @@ def gen_digest_case(rng, cfg, world):
         others = [p for u, p in cfg['users'] if u != user and p != pw]
         pw_used = rng.choice(others) if others else pw + 'z'
     elif kind == 'unknown_user':
-        user_used = rng.choice(['mallory', user + 'x', user[:-1] or 'y', user.upper() if user.upper() != user else 'zz',
+        user_used = rng.choice((['stranger'] * 3 if cfg['store'] == 'htdigest' else []) + [
+            'mallory', user + 'x', user[:-1] or 'y', user.upper() if user.upper() != user else 'zz',
                                 'None', unicodedata.normalize('NFD', user) + '̀'])
+        if user_used == 'stranger':
+            pw_used, realm_used = 'pw', rng.choice(['elsewhere', cfg['realm']])
         if user_used in [u for u, _ in cfg['users']]:
             user_used = 'mallory2'
     elif kind == 'empty_password_user':
@@ -424,7 +448,7 @@ def gen_digest_case(rng, cfg, world):
         issue_at, age = now, 0
     nonce = world.issue(cfg, issue_at)
     if nonce is None:
-        nonce = 'unissued'
+        nonce = '%d:unissued' % int(issue_at)
     genuine = {nonce: int(issue_at)}
     if kind == 'nonce_forged':
         forged = rng.choice(FORGERIES)
